@@ -531,6 +531,62 @@ func checkStateGuard(c *Ctx, pkg, label string) {
 		}
 	}
 	_ = n
+	// reads: a state query answers from one consistent snapshot — in every keeper method that takes
+	// stateLock for reading (the queries), each read of a space's state (a direct load, ws.Info(),
+	// ws.State(), the flag filter getWsByFlags) happens with the lock still held. A query that filters
+	// under the lock but reads the states after releasing it reports a space under a flag it no longer has
+	// (e.g. two spaces `plotting`).
+	held := func(in ssa.Instruction) bool {
+		for k := range li.at[in] {
+			if k.Class == lockClass {
+				return true
+			}
+		}
+		return false
+	}
+	nReads := 0
+	var badReads []string
+	for _, fn := range fns {
+		if fn.Parent() != nil || fn.Signature.Recv() == nil || !strings.HasSuffix(fn.Signature.Recv().Type().String(), ".SpaceKeeper") {
+			continue
+		}
+		takesR := false
+		allInstrs(fn, func(in ssa.Instruction) {
+			if cls, mode, _, op, ok := lockOp(in); ok && op == "lock" && cls == lockClass && mode == 'R' {
+				takesR = true
+			}
+		})
+		if !takesR {
+			continue
+		}
+		for _, g := range withClosures(fn) {
+			for _, a := range fieldAccesses(g) {
+				if a.Kind == "load" && a.Type == pkg+".WorkSpace" && a.Field == "state" {
+					nReads++
+					if !held(a.In) {
+						badReads = append(badReads, fmt.Sprintf("%s reads WorkSpace.state at %s", fn.Name(), c.Pos(a.In.Pos())))
+					}
+				}
+			}
+			allInstrs(g, func(in ssa.Instruction) {
+				id := calleeID(in)
+				if id == "(*"+pkg+".WorkSpace).Info" || id == "(*"+pkg+".WorkSpace).State" || id == pkg+".getWsByFlags" {
+					nReads++
+					if !held(in) {
+						badReads = append(badReads, fmt.Sprintf("%s calls %s at %s", fn.Name(), shortID(id), c.Pos(in.Pos())))
+					}
+				}
+			})
+		}
+	}
+	key := label + ":queries-read-state-under-stateLock"
+	if len(badReads) > 0 {
+		c.Bad(rule, key, "", strings.Join(badReads, "; ")+" after the read lock was released: the plotter can change the state in between, so the answer mixes two moments (a space listed under a flag it no longer has)")
+	} else if nReads > 0 {
+		c.OK(rule, key, "", fmt.Sprintf("%d state reads in read-locked queries, all with stateLock held", nReads))
+	} else {
+		c.Bad(rule, key, "", "reason=anchor-missing: no read-locked query reading workspace states")
+	}
 }
 
 func checkQueueCleared(c *Ctx, pkg, label string) {
